@@ -67,7 +67,10 @@ def gen_scalar(rng, ver, hashable=False):
     if k == 'blob':
         return [rng.choice(['bytes', 'bytearray', 'memoryview']), bytes(rng.randrange(256) for _ in range(rng.choice([0, 1, 2, 3, 4, 5, 9]))).hex()]
     if k == 'decimal':
-        return ['decimal', '%s%dE%d' % (rng.choice(['', '-']), rng.choice([0, 1, 110, 12345, rng.randrange(10 ** 12)]), rng.randrange(-20, 21))]
+        # coefficients beyond the default context precision (28 digits): any arithmetic on the way (normalize, +0, quantize) rounds them
+        coeff = rng.choice([0, 1, 110, 12345, rng.randrange(10 ** 12), 10 ** 29 - 1, 2 ** 128, 10 ** 28 + 1,
+                            314159265358979323846264338327950288419716939937510, rng.randrange(10 ** 28, 10 ** rng.randrange(29, 61))])
+        return ['decimal', '%s%dE%d' % (rng.choice(['', '-']), coeff, rng.randrange(-60, 21))]
     if k == 'date':
         return ['date', rng.choice([1, 3652059, 719163, rng.randrange(1, 3652060)])]
     if k == 'time':
@@ -143,9 +146,9 @@ def classify(vs, rt):
             return 'DurationTypeIO.%s.%s' % (td_class(lf[1]), how)
         if lf[0] == 'subdatetime':
             return 'get_serializer.datetime-subclass.%s' % how
-    if vs[0] == 'set' and any(x[0] in ('bytes', 'bytearray', 'memoryview') for x in leaves(vs)):
+    if rt['back_exc'] == 'TypeError' and vs[0] == 'set' and any(x[0] in ('bytes', 'bytearray', 'memoryview') for x in leaves(vs)):
         return 'SetTypeIO.blob-member.unhashable'
-    if vs[0] == 'dict' and any(x[0] in ('bytes', 'bytearray', 'memoryview') for kv in vs[1] for x in leaves(kv[0])):
+    if rt['back_exc'] == 'TypeError' and vs[0] == 'dict' and any(x[0] in ('bytes', 'bytearray', 'memoryview') for kv in vs[1] for x in leaves(kv[0])):
         return 'MapTypeIO.blob-key.unhashable'
     return '%s.%s.%s' % (vs[0], how, rt['back_exc'] or rt['ser_exc'] or 'unequal')
 
